@@ -276,7 +276,12 @@ def closed_form(setname, variant):
             m.min(cost @ x + 0.25 * y)
         k1 = (A @ x + a0) @ z + x[0] - 2 * x[1] + y <= 4
         k2 = (x[1] * z[0] - y >= -3)
-        if variant == "default-set":
+        if variant == "robust-equality":
+            # an equality that must hold for every z of the set: on a set that is not full-dimensional this is weaker
+            # than "all coefficients vanish"
+            k3 = (x[0] * z[0] + 2 * x[0] * z[1] + x[1] * z[1] + y == 2)
+            m.st(k1.forall(*zs), k3.forall(*zs))
+        elif variant == "default-set":
             m.st(k1, k2)
         else:
             m.st(k1.forall(*zs), k2.forall(zs))
@@ -302,7 +307,10 @@ def closed_form(setname, variant):
         for v in verts:
             g1 = ((A[0, 0] * x0 + A[0, 1] * x1 + a0[0]) * v[0] + (A[1, 0] * x0 + A[1, 1] * x1 + a0[1]) * v[1] + x0 - 2 * x1 + yv(v))
             rows.append(p_le(g1, 4.0))
-            rows.append(p_le(-3.0, x1 * v[0] - yv(v)))
+            if variant == "robust-equality":
+                rows.append(p_eq(x0 * v[0] + 2 * x0 * v[1] + x1 * v[1] + yv(v), 2.0))
+            else:
+                rows.append(p_le(-3.0, x1 * v[0] - yv(v)))
             if variant == "rule":
                 rows.append(p_le(cost[0] * x0 + cost[1] * x1 + 0.25 * yv(v), t))
         if variant != "rule":
@@ -329,7 +337,7 @@ def jobs(tier):
                 js.append({"name": f"counterpart-{st}-{rows}-{given}", "kind": "counterpart", "set": st, "rows": rows, "given": given})
     js += [{"name": "no-support", "kind": "no_support"}, {"name": "rule-masks", "kind": "rule_masks"}, {"name": "epigraph", "kind": "epigraph"}]
     for st in _poly_sets():
-        for variant in ("own-set", "default-set", "rule", "own-set-beside-a-default"):
+        for variant in ("own-set", "default-set", "rule", "own-set-beside-a-default", "robust-equality"):
             js.append({"name": f"closed-form-{st}-{variant}", "kind": "closed_form", "set": st, "variant": variant})
     return js
 
